@@ -128,6 +128,59 @@ theorem mapM_matchPart_ok : ∀ (parts : List Bytes) (ms : List Match),
           have hrest' := ih2 (fun m' hm' => hf m' (List.mem_cons_of_mem _ hm'))
           simp [Cpp.matchParts, hp, hm, hrest']
 
+/-- a stepped part that was handled has a non-zero step -/
+theorem handleMatch_step (bl bl' : Blocks) (a b : Bytes) (mc : Char) (n : Bytes)
+    (h : handleMatch bl (.complex a b mc n) = .ok bl') : atoi n ≠ some 0 := by
+  intro h0
+  simp [handleMatch, parseInt, h0, bind, Except.bind] at h
+
+theorem handleMatches_steps : ∀ (ms : List Match) (bl bl' : Blocks),
+    handleMatches bl ms = .ok bl' →
+    ms.all Cpp.stepOk = true
+  | [], _, _, _ => rfl
+  | m :: ms, bl, bl', h => by
+    simp only [handleMatches, bind, Except.bind] at h
+    cases hm : handleMatch bl m with
+    | error e => simp [hm] at h
+    | ok bl1 =>
+      simp only [hm] at h
+      have ih := handleMatches_steps ms bl1 bl' h
+      simp only [List.all_cons, ih, Bool.and_true]
+      cases m with
+      | single a => rfl
+      | range a b => rfl
+      | complex a b mc n =>
+        have := handleMatch_step bl bl1 a b mc n hm
+        simp [Cpp.stepOk, this]
+
+/-- the port's matcher agrees with the Go matcher on every text the Go library accepts -/
+theorem cpp_matches_eq (s : Bytes) (fs : FrameSet) (h : FrameSet.parse s = .ok fs) :
+    ∃ ms bl, Cpp.frameRangeMatches s = .ok ms ∧ handleMatches [] ms = .ok bl := by
+  simp only [FrameSet.parse, bind, Except.bind] at h
+  cases hms : Gfs.frameRangeMatches s with
+  | error e => simp [hms] at h
+  | ok ms =>
+    simp only [hms] at h
+    cases hbl : handleMatches [] ms with
+    | error e => simp [hbl] at h
+    | ok bl =>
+      have hfit := handleMatches_fits ms [] bl hbl
+      unfold Gfs.frameRangeMatches at hms
+      obtain ⟨hne, hok⟩ := mapM_matchPart_ok _ ms hms
+      refine ⟨ms, bl, ?_, hbl⟩
+      unfold Cpp.frameRangeMatches
+      rw [splitGetline_eq ',' (stripJunk s) hne]
+      exact hok hfit
+
+/-- C19, validity test: the port's `isFrameRange` says yes to every text the Go library accepts -/
+theorem cpp_isFrameRange_of_parse (s : Bytes) (fs : FrameSet) (h : FrameSet.parse s = .ok fs) :
+    Cpp.isFrameRange s = .ok true := by
+  obtain ⟨ms, bl, hm, hb⟩ := cpp_matches_eq s fs h
+  unfold Cpp.isFrameRange
+  rw [hm]
+  simp only
+  rw [handleMatches_steps ms [] bl hb]
+
 /-- C19, parsing: a range text the Go library accepts and that denotes at least one frame is
     accepted by the port with exactly the same block list (hence the same frames, length,
     index / membership answers, normalised and inverted ranges). -/
